@@ -54,5 +54,22 @@ func specs() map[string]*spec {
 		Rule: "finite space enumerated completely: every definition of schemes/api_latest.tl and every id-bearing definition of mtproto.tl (wire-used ones strictly) compared with its registered Go type by reflection (id = CRC() = CRC-32 of the canonical line; field kinds positionally; tag bit; encoded_in_bitflags; FlagIndex), every registered id looked up in the schemas, the hand-written wrappers found by a source scan; distinct = distinct definition / registered id / wrapper",
 		Assumptions: []string{"ref/tlschema parser (self-validated by CRC on every line)", "registry export H1"},
 	})
+	add(&spec{ID: "C01", Level: "exploration",
+		WLs: []wlSpec{{Name: "c01", TimeoutS: 900}},
+		Rule: "for EVERY registered type (and the hand-written wrappers): type-directed values built by reflection (presence patterns none/all/each single group, all 2^g for g<=10 in thorough; members of a present group may be zero; boundary numbers, string lengths {0..9,251..258,65535,65536} cycled, 0-3 leading zero bytes in int128/256, every enum member, implementers of the first interface field walked in turn, nesting depth 1-4) -> Marshal twice (identical bytes) -> DecodeUnknownObject and Decode into the named type -> equality modulo nil/empty slice, big-int value, double bits; distinct = distinct (type, presence mask, value shape) with >=1 conditional pattern or a non-flat shape",
+		Assumptions: []string{"value domain = TL values: in a present group the `true` members are set, object members non-nil", "registry export H1", "decode-only types (gzip_packed, msg_copy, msg_container) have no Marshal direction in the library and are exercised from reference bytes in C02/C15"},
+	})
+	add(&spec{ID: "C15", Level: "exploration",
+		WLs: []wlSpec{{Name: "c15", TimeoutS: 1200}},
+		Rule: "seeds = valid encodings of EVERY registered type (type-directed generator) plus reference-built rpc_result/container/gzip wrappers; mutations = every prefix truncation (word boundaries and odd cuts), each of the first 28 words (and sampled later ones) replaced by 20 classes (registered struct id, enum id, vector/Bool/null/gzip/container/rpc_result ids, 0, 1, -1, 2^31-1, 2^31, 0xfe string headers, huge counts), vector-at-root under every hint kind with huge counts, splices, uniform random bytes; entry points DecodeUnknownObject, Decode into the named type, DecodeUnknownObject with hints; monitors: recover(), child death, allocation delta (runtime/metrics) <= 1 MiB + 4096*len(input) unless the input contains the gzip id, thread CPU <= 5 s per call, in-process no-termination monitor (60 s CPU on one call); distinct = distinct (seed type, word position, replacement class)",
+		Post: func(r *run) {
+			// calibration: if legitimate decoding comes within 4x of the allocation bound the rule is not trustworthy
+			if v := r.counters["max.valid_alloc_permille_of_bound"]; v > 250 {
+				r.inconcl = append(r.inconcl, "calibration: a valid encoding allocated more than a quarter of the bound; the allocation rule needs re-calibration")
+				r.forceInconclusive = true
+			}
+		},
+		Assumptions: []string{"runtime/metrics /gc/heap/allocs:bytes as the allocation measure (lazy per-span flushing of tens of KiB is far below the 1 MiB constant)", "getrusage(RUSAGE_THREAD) with the workload goroutine locked to its OS thread"},
+	})
 	return m
 }
